@@ -209,7 +209,11 @@ func (r *Reader) Read(p []byte) (int, error) {
 	}
 	if r.concReader.ready() {
 		n, err := r.concReader.Read(p)
-		r.err = err
+		if err != io.EOF {
+			// io.EOF is not a sticky error: a later Seek can make more data
+			// available, as with the non-concurrent reader below.
+			r.err = err
+		}
 		return n, err
 	}
 
